@@ -318,6 +318,47 @@ func (s *Server) EventCount(name string) int64 {
 	return 0
 }
 
+// TotalEvents sums every hook event counter of this server.
+func (s *Server) TotalEvents() int64 {
+	var n int64
+	s.Events.Range(func(_, v any) bool { n += v.(*atomic.Int64).Load(); return true })
+	return n
+}
+
+// NoProgressFor reports whether the server raised no hook event at all (no transaction handled, dequeued or sent, no
+// connection registered) during d. Called while a request is outstanding, true means the server is wedged, not slow:
+// the polling goroutine shares the Go scheduler with the server's goroutines, so if it gets to run for d, they would
+// too, unless they are blocked or spinning.
+func (s *Server) NoProgressFor(d time.Duration) bool {
+	start := s.TotalEvents()
+	for deadline := time.Now().Add(d); time.Now().Before(deadline); {
+		time.Sleep(50 * time.Millisecond)
+		if s.TotalEvents() != start {
+			return false
+		}
+	}
+	return true
+}
+
+// Stacks returns the stacks of the goroutines that are inside the server's packages (for wedge witnesses).
+func Stacks() string {
+	buf := make([]byte, 4<<20)
+	buf = buf[:runtime.Stack(buf, true)]
+	var out []string
+	for _, g := range strings.Split(string(buf), "\n\n") {
+		if strings.Contains(g, "jhalter/mobius/hotline.") || strings.Contains(g, "jhalter/mobius/internal/mobius.") {
+			if len(g) > 1500 {
+				g = g[:1500]
+			}
+			out = append(out, g)
+		}
+		if len(out) >= 12 {
+			break
+		}
+	}
+	return strings.Join(out, "\n\n")
+}
+
 // MarkerType is the transaction type of the barrier transaction pushed through the outbox;
 // it is addressed to client ID 0 and ignored by the reference client.
 const MarkerType = 0xFFFF
